@@ -70,6 +70,177 @@ type Case struct {
 	NilTab   bool              `json:"nil_table,omitempty"`
 	Pre      []jgen.TableEntry `json:"pre,omitempty"`
 	FreshIDs []string          `json:"fresh_ids,omitempty"` // only for the closing CFresh case
+	Hist     []HStep           `json:"hist,omitempty"`      // a history on ONE node: the fields above configure the node
+}
+
+// HStep is one call on the shared node of a history
+type HStep struct {
+	Rotate bool   `json:"rotate,omitempty"`
+	Signer int    `json:"signer,omitempty"` // Rotate: 0 nil, 1 ok, 2 fails, 3 ok with an empty result
+	Tag    string `json:"tag,omitempty"`
+	Ev     *Case  `json:"ev,omitempty"` // Process: type, time, pkind, pid, payload, pre of the event
+}
+
+func cfgLit(c Case) string {
+	_, srcTok, srcOK := mkURL(c.Source)
+	_, schTok, schOK := mkURL(c.Schema)
+	typesLit := make([]string, len(c.Types))
+	for i, t := range c.Types {
+		typesLit[i] = jgen.Bytes(jgen.Unhex(t))
+	}
+	return fmt.Sprintf("{| k_nil := false; k_source := %s; k_schema := %s; k_format := %s; k_pred := %d; k_signer := %d; k_tag := %s; k_types := [%s] |}",
+		jgen.OptBytes(srcTok, srcOK), jgen.OptBytes(schTok, schOK), fmtLit(c.Format), c.Pred, c.Signer, jgen.Bytes(jgen.Unhex(c.Tag)), strings.Join(typesLit, "; "))
+}
+
+// runHist runs a history on one FormatterFilter: Process calls on fresh events and Rotate calls in the given order
+func runHist(c Case) (ret *retained, panics []string, fresh []string, observed []string) {
+	src, _, _ := mkURL(c.Source)
+	sch, _, _ := mkURL(c.Schema)
+	sh := &shared{node: &ce.FormatterFilter{Source: src, Schema: sch, Format: ce.Format(c.Format)}}
+	for _, t := range c.Types {
+		sh.node.SignEventTypes = append(sh.node.SignEventTypes, string(jgen.Unhex(t)))
+	}
+	sh.node.Signer = mkSigner(c.Signer, jgen.Unhex(c.Tag), &sh.calls)
+	switch c.Pred {
+	case 1:
+		sh.node.Predicate = func(context.Context, interface{}) (bool, error) { return true, nil }
+	case 2:
+		sh.node.Predicate = func(context.Context, interface{}) (bool, error) { return false, nil }
+	}
+	ret = &retained{id: c.ID}
+	var order []string // per step: "" for a Process step (filled from the records), the literal for a Rotate step
+	for i, st := range c.Hist {
+		if st.Rotate {
+			var rerr error
+			func() {
+				defer func() {
+					if p := recover(); p != nil {
+						panics = append(panics, fmt.Sprintf("case %d: Rotate at step %d: %v", c.ID, i, p))
+					}
+				}()
+				rerr = sh.node.Rotate(mkSigner(st.Signer, jgen.Unhex(st.Tag), &sh.calls))
+			}()
+			order = append(order, fmt.Sprintf("HRot %d %s %s", st.Signer, jgen.Bytes(jgen.Unhex(st.Tag)), hc.B(rerr != nil)))
+			observed = append(observed, fmt.Sprintf("step %d Rotate(signer kind %d) -> err=%v", i, st.Signer, rerr))
+			continue
+		}
+		ev := *st.Ev
+		ev.ID = c.ID
+		ev.Source, ev.Schema, ev.Format, ev.Types, ev.Pred = c.Source, c.Schema, c.Format, c.Types, c.Pred
+		r, obs, _ := runCaseOn(ev, sh)
+		if obs.Panic != "" {
+			panics = append(panics, fmt.Sprintf("case %d: step %d: %s", c.ID, i, obs.Panic))
+		}
+		if obs.Fresh != "" {
+			fresh = append(fresh, obs.Fresh)
+		}
+		for _, x := range ret.sub { // one more Process call for the earlier events of this history
+			x.recheck(1)
+		}
+		ret.sub = append(ret.sub, r)
+		order = append(order, "")
+		stored := ""
+		for k, v := range obs.Table {
+			stored += fmt.Sprintf(" %s=%q", k, jgen.Unhex(v))
+		}
+		observed = append(observed, fmt.Sprintf("step %d Process(type %q) -> err=%v out=%d signer inputs=%d stored:%s", i, jgen.Unhex(ev.Type), obs.Err, obs.Out, len(obs.Calls), stored))
+	}
+	head := fmt.Sprintf("CHist %d %s", c.ID, cfgLit(c))
+	ret.group = func(recs []string) string {
+		parts := make([]string, len(order))
+		j := 0
+		for i, o := range order {
+			if o == "" {
+				parts[i] = "HProc " + recs[j]
+				j++
+			} else {
+				parts[i] = o
+			}
+		}
+		return head + " [" + strings.Join(parts, ";\n  ") + "]"
+	}
+	return
+}
+
+func (em *emitter) emitHist(c Case) {
+	c.ID = em.next
+	em.next++
+	js, _ := json.Marshal(c)
+	ret, panics, fresh, _ := runHist(c)
+	em.panics = append(em.panics, panics...)
+	em.fresh = append(em.fresh, fresh...)
+	for _, r := range em.batch {
+		r.recheck(len(ret.sub))
+	}
+	em.batch = append(em.batch, ret)
+	if len(em.batch) >= batchSize {
+		em.flush()
+	}
+	em.stats["histories"]++
+	em.stats["history-steps"] += len(c.Hist)
+	sig := string(js[strings.Index(string(js), `"gen"`):])
+	if !em.sigs[sig] {
+		em.sigs[sig] = true
+		em.nontriv++
+	}
+	em.side.Write(js)
+	em.side.Write([]byte("\n"))
+	em.stats["cases"]++
+}
+
+func histEvent(typ string, i int) *Case {
+	pl := simpleMap
+	if i%3 == 1 {
+		pl = &jgen.Recipe{K: "nil"}
+	}
+	return &Case{Type: hx(typ), Time: jgen.Times[i%5], PKind: []string{"plain", "id", "data"}[i%3], PID: hx("id-" + typ), Payload: pl}
+}
+
+// every history of up to 3 calls ending in a Process, over {Process listed, Process unlisted, Rotate A, Rotate B,
+// Rotate failing signer, Rotate nil}, on a node constructed without a signer / with signer A / with a failing signer
+func genHistGrid(em *emitter) {
+	alphabet := []HStep{{Ev: histEvent("t", 0)}, {Ev: histEvent("u", 1)}, {Rotate: true, Signer: 1, Tag: hx("A-")}, {Rotate: true, Signer: 1, Tag: hx("B-")},
+		{Rotate: true, Signer: 2}, {Rotate: true, Signer: 0}}
+	for _, initial := range []int{0, 1, 2} {
+		for fi, format := range []string{"", "cloudevents-text"} {
+			var rec func(seq []HStep)
+			rec = func(seq []HStep) {
+				if len(seq) > 0 && !seq[len(seq)-1].Rotate && (fi == 0 || (initial == 0 && len(seq) == 3)) {
+					em.emitHist(Case{Gen: "history-grid", Source: "https://src.example", Format: format, Signer: initial, Tag: hx("I-"),
+						Types: []string{hx("t"), hx("zz")}, Hist: append([]HStep{}, seq...)})
+				}
+				if len(seq) < 3 {
+					for _, o := range alphabet {
+						rec(append(append([]HStep{}, seq...), o))
+					}
+				}
+			}
+			rec(nil)
+		}
+	}
+}
+
+func genHistRandom(em *emitter, r *hc.Rand, n int) {
+	g := &jgen.Gen{R: r, Stats: em.stats}
+	for i := 0; i < n; i++ {
+		c := Case{Gen: "history-random", Source: "https://src.example", Schema: []string{"", "https://schema.example/s"}[r.Intn(2)],
+			Format: []string{"", "cloudevents-json", "cloudevents-text"}[r.Intn(3)], Signer: []int{0, 0, 1, 2, 3}[r.Intn(5)], Tag: hx("I-"), Pred: []int{0, 0, 1, 2}[r.Intn(4)]}
+		listed := hex.EncodeToString(append([]byte{'t'}, g.String(2)...))
+		c.Types = []string{hx("zz"), listed}
+		for j, m := 0, 2+r.Intn(7); j < m; j++ {
+			if r.Chance(2, 5) {
+				c.Hist = append(c.Hist, HStep{Rotate: true, Signer: []int{0, 1, 1, 2, 3}[r.Intn(5)], Tag: hex.EncodeToString(g.String(2))})
+				continue
+			}
+			ev := &Case{Type: listed, Time: jgen.GenTime(r), PKind: []string{"plain", "id", "data", "both"}[r.Intn(4)], PID: hx("i1"), Payload: g.Payload(2, 10)}
+			if r.Chance(1, 3) {
+				ev.Type = hex.EncodeToString(g.String(2))
+			}
+			ev.NilTab, ev.Pre = jgen.GenPre(r, g)
+			c.Hist = append(c.Hist, HStep{Ev: ev})
+		}
+		em.emitHist(c)
+	}
 }
 
 func mkURL(s string) (*url.URL, []byte, bool) {
@@ -132,7 +303,36 @@ func fmtLit(f string) string {
 	return "FBad"
 }
 
-func runCase(c Case) (ret *retained, obs Obs, nontrivial bool) {
+// shared is ONE FormatterFilter used by all Process steps of a history; its signer closures record into calls
+type shared struct {
+	node  *ce.FormatterFilter
+	calls [][]byte
+}
+
+func mkSigner(kind int, tag []byte, rec *[][]byte) ce.Signer {
+	switch kind {
+	case 1:
+		return func(_ context.Context, b []byte) (string, error) {
+			*rec = append(*rec, append([]byte(nil), b...))
+			return sigFn(tag, b), nil
+		}
+	case 2:
+		return func(_ context.Context, b []byte) (string, error) {
+			*rec = append(*rec, append([]byte(nil), b...))
+			return "", errSign
+		}
+	case 3:
+		return func(_ context.Context, b []byte) (string, error) {
+			*rec = append(*rec, append([]byte(nil), b...))
+			return "", nil
+		}
+	}
+	return nil
+}
+
+func runCase(c Case) (ret *retained, obs Obs, nontrivial bool) { return runCaseOn(c, nil) }
+
+func runCaseOn(c Case, sh *shared) (ret *retained, obs Obs, nontrivial bool) {
 	gv, mv, ok := jgen.Build(c.Payload)
 	ty := jgen.Unhex(c.Type)
 	tm := c.Time.Time()
@@ -206,23 +406,7 @@ func runCase(c Case) (ret *retained, obs Obs, nontrivial bool) {
 		for _, t := range c.Types {
 			node.SignEventTypes = append(node.SignEventTypes, string(jgen.Unhex(t)))
 		}
-		switch c.Signer {
-		case 1:
-			node.Signer = func(_ context.Context, b []byte) (string, error) {
-				calls = append(calls, append([]byte(nil), b...))
-				return sigFn(tag, b), nil
-			}
-		case 2:
-			node.Signer = func(_ context.Context, b []byte) (string, error) {
-				calls = append(calls, append([]byte(nil), b...))
-				return "", errSign
-			}
-		case 3:
-			node.Signer = func(_ context.Context, b []byte) (string, error) {
-				calls = append(calls, append([]byte(nil), b...))
-				return "", nil
-			}
-		}
+		node.Signer = mkSigner(c.Signer, tag, &calls)
 		switch c.Pred {
 		case 1:
 			node.Predicate = func(context.Context, interface{}) (bool, error) { return true, nil }
@@ -234,6 +418,10 @@ func runCase(c Case) (ret *retained, obs Obs, nontrivial bool) {
 			node.Predicate = func(context.Context, interface{}) (bool, error) { predErr = true; return true, errPred }
 		}
 	}
+	if sh != nil { // a step of a history: the one shared node, whatever signer is installed on it now
+		node = sh.node
+		sh.calls = nil
+	}
 	var out *el.Event
 	var err error
 	func() {
@@ -244,6 +432,9 @@ func runCase(c Case) (ret *retained, obs Obs, nontrivial bool) {
 		}()
 		out, err = node.Process(context.Background(), e)
 	}()
+	if sh != nil {
+		calls = sh.calls
+	}
 	obs.Err = err != nil
 	if err != nil {
 		obs.ErrText = err.Error()
@@ -322,15 +513,15 @@ func runCase(c Case) (ret *retained, obs Obs, nontrivial bool) {
 	for i, b := range calls {
 		callsLit[i] = jgen.Bytes(b)
 	}
-	prefix := fmt.Sprintf("CCe %d {| k_cfg := {| k_nil := %s; k_source := %s; k_schema := %s; k_format := %s; k_pred := %d; k_signer := %d; k_tag := %s; k_types := [%s] |};\n"+
+	prefix := fmt.Sprintf("{| k_cfg := {| k_nil := %s; k_source := %s; k_schema := %s; k_format := %s; k_pred := %d; k_signer := %d; k_tag := %s; k_types := [%s] |};\n"+
 		"   k_evnil := %s; k_type := %s; k_time := %s; k_payload := {| y_id := %s; y_data := %s |}; k_pre := %s; k_fresh := %s;\n"+
 		"   k_obs := {| b_err := %s; b_out := %d; b_table := %s; b_frame := %s; b_calls := [%s]; b_time_ok := %s; b_pred_err := %s",
-		c.ID, hc.B(c.NilNode), jgen.OptBytes(srcTok, srcOK), jgen.OptBytes(schTok, schOK), fmtLit(c.Format), c.Pred, c.Signer, jgen.Bytes(tag), strings.Join(typesLit, "; "),
+		hc.B(c.NilNode), jgen.OptBytes(srcTok, srcOK), jgen.OptBytes(schTok, schOK), fmtLit(c.Format), c.Pred, c.Signer, jgen.Bytes(tag), strings.Join(typesLit, "; "),
 		hc.B(c.NilEvent), jgen.Bytes(ty), jgen.OptBytes(c.Time.Text(), c.Time.Encodable()), idLit, dataLit, preLit, jgen.Bytes(fresh),
 		hc.B(obs.Err), obs.Out, jgen.TableLit(after, extra), hc.B(obs.Frame), strings.Join(callsLit, "; "), hc.B(obs.TimeOK), hc.B(predErr))
 	// keep the event together with a private copy of the document stored right now: it is re-read after later Process calls
 	// on other events (the stored document must stay what was stored)
-	ret = &retained{id: c.ID, prefix: prefix, ev: e, key: "cloudevents-json"}
+	ret = &retained{id: c.ID, head: fmt.Sprintf("CCe %d ", c.ID), prefix: prefix, ev: e, key: "cloudevents-json"}
 	if c.Format == "cloudevents-text" {
 		ret.key = "cloudevents-text"
 	}
@@ -347,8 +538,11 @@ func runCase(c Case) (ret *retained, obs Obs, nontrivial bool) {
 // ---------------------------------------------------------------- retention: stored documents must not change afterwards
 type retained struct {
 	id       int
-	prefix   string // the case literal up to b_time_ok (complete literal when whole is set)
+	head     string // "CCe <id> " for a stand-alone case
+	prefix   string // the kcase record up to b_pred_err (complete literal when whole is set)
 	whole    bool
+	sub      []*retained                // the Process steps of a history
+	group    func(recs []string) string // assembles the history's literal from its steps' records
 	ev       *el.Event
 	key      string
 	copy     []byte // private copy of Format(key) taken right after Process
@@ -360,6 +554,9 @@ type retained struct {
 }
 
 func (r *retained) recheck(calls int) {
+	for _, x := range r.sub {
+		x.recheck(calls)
+	}
 	if r.whole || r.ev == nil {
 		return
 	}
@@ -378,10 +575,20 @@ func (r *retained) lit() string {
 	if r.whole {
 		return r.prefix
 	}
-	if r.later == 0 {
-		r.final, r.finalHas = r.copy, r.has
+	if r.group != nil {
+		recs := make([]string, len(r.sub))
+		for i, x := range r.sub {
+			recs[i] = x.record()
+		}
+		return r.group(recs)
 	}
-	return r.prefix + fmt.Sprintf("; b_final := %s; b_later := %d |} |}", jgen.OptBytes(r.final, r.finalHas), r.later)
+	return r.head + r.record()
+}
+func (r *retained) record() string {
+	if r.later == 0 {
+		return r.prefix + "; b_final := None; b_later := 0 |} |}" // re-read and equal to the private copy every time
+	}
+	return r.prefix + fmt.Sprintf("; b_final := (Some %s); b_later := %d |} |}", jgen.OptBytes(r.final, r.finalHas), r.later)
 }
 
 var churnPayloads = []interface{}{"", "x", strings.Repeat("z", 700), map[string]interface{}{"k": []interface{}{1, "two", nil}}, strings.Repeat("<&>\n", 40), 12345}
@@ -752,6 +959,11 @@ func runCorpus(em *emitter, path string) {
 			fmt.Fprintf(os.Stderr, "corpus: %v\n", err)
 			continue
 		}
+		if len(c.Hist) > 0 {
+			c.Gen = "corpus"
+			em.emitHist(c)
+			continue
+		}
 		if c.Payload == nil {
 			continue
 		}
@@ -766,9 +978,10 @@ func main() {
 	modes := flag.String("modes", "grid,random", "generators")
 	nRandom := flag.Int("random", 300, "random cases")
 	depth := flag.Int("depth", 3, "payload nesting depth")
-	perShard := flag.Int("per-shard", 120, "cases per file")
+	perShard := flag.Int("per-shard", 80, "cases per file")
 	corpus := flag.String("corpus", "", "corpus file (JSON lines), run first")
 	replay := flag.String("replay", "", "replay one JSON case and print its observations")
+	nHist := flag.Int("hist", 60, "random histories on one shared FormatterFilter (the exhaustive short ones are always run)")
 	concPer := flag.Int("conc-per", 2500, "events per goroutine of the concurrent fresh-id part (8 goroutines)")
 	flag.Parse()
 
@@ -783,6 +996,18 @@ func main() {
 		}
 		if err := json.Unmarshal(data, &wrapper); err != nil || wrapper.Case.Payload == nil {
 			_ = json.Unmarshal(data, &wrapper.Case)
+		}
+		if len(wrapper.Case.Hist) > 0 {
+			ret, panics, _, observed := runHist(wrapper.Case)
+			for _, o := range observed {
+				fmt.Println(o)
+			}
+			for _, p := range panics {
+				fmt.Println("PANIC:", p)
+			}
+			settle([]*retained{ret})
+			fmt.Println(ret.lit())
+			return
 		}
 		if wrapper.Case.Gen == "concurrent-ids" {
 			total, dups, panics, first := concurrentIDs(8, *concPer)
@@ -833,6 +1058,9 @@ func main() {
 			genRandom(em, r.Fork(), *nRandom, *depth)
 		case "conc":
 			genConc(em, 8, *concPer)
+		case "hist":
+			genHistGrid(em)
+			genHistRandom(em, r.Fork(), *nHist)
 		case "":
 		default:
 			fmt.Fprintf(os.Stderr, "unknown mode %s\n", m)
